@@ -96,6 +96,7 @@ int handle(const char* op, const char* rest, void (*probe)())
             }
             de_answer(o2, nunavut::support::const_bitspan{in, n});
         }
+        if (is_dereuse) { std::free(in); return 1; }     // the alternative below decodes into a fresh object: only comparable with `de`
         char* prim = o_take();
         {
             // the representation as a sub-range of a larger buffer, other data before and behind it
